@@ -44,6 +44,8 @@ for _id in ("C01", "C02", "C03", "C04", "C05", "C06", "C07", "C08", "C09", "C10"
         P(f"seed {_id}_i (ninth round)", _id, f"seeded/{_id}_i/patch.diff")
     if _os_path_exists(f"seeded/{_id}_j/patch.diff"):
         P(f"seed {_id}_j (tenth round)", _id, f"seeded/{_id}_j/patch.diff")
+    if _os_path_exists(f"seeded/{_id}_k/patch.diff"):
+        P(f"seed {_id}_k (eleventh round)", _id, f"seeded/{_id}_k/patch.diff")
 
 # ------------------------------------------------------------------ behaviour-preserving refactorings written by independent sub-agents
 # (refactors/r*/patch.diff, each passes the 79 tests): every check must stay silent (exit 0) on every one of them
@@ -716,3 +718,4 @@ V("fix dc3bf81 undone: first hash entry of a missing path dereferenced without N
                     continue
 
 """, "\n", "R17.11")
+V("fix 534564c undone: an empty <pattern> is read back as None", ["C12", "C10"], HX, 'existing_ignore_patterns.append(element.text or "")', "existing_ignore_patterns.append(element.text)", "R12.6")
